@@ -76,6 +76,11 @@ func genC10(t *rapid.T) Script {
 		}
 		sc.Attempts = append(sc.Attempts, a)
 	}
+	if stats.Pct(t, "calls") >= 75 {
+		// no retries inside Connect: every attempt is a separate Connect call on the same Connection
+		sc.Backoff.MaxRetries = -1
+		sc.Calls = len(sc.Attempts) + 1
+	}
 	sc.Body = stats.From(t, []string{"none", "nobody", "getbody", "getbody", "getbody", "nogetbody", "getbodyfail"}, "body")
 	if sc.Body == "getbodyfail" {
 		sc.GetBodyFail = stats.Pick(t, 4, "getbodyfail")
@@ -233,6 +238,9 @@ walk:
 		if tr.final == nil || !errors.Is(tr.final, tr.ctxErrAtEnd) {
 			return v.Failf("", "Connect returned %v, want the context's error\n%s", tr.final, desc())
 		}
+	}
+	if sc.Calls > 1 {
+		v.Class("connect-called-again-on-the-same-connection")
 	}
 	// events (IDs as dispatched)
 	if len(tr.events) != len(wantEvents) {
